@@ -16,6 +16,7 @@ pub use derive_more::TryFrom;
 pub use derive_more::TryFromReprError;
 pub const K5: u8 = 5;
 pub const NEG: i32 = -40;
+pub const NEG16: i16 = -100;
 '''
 
 # (key, title, repr attr lines, repr type, generics decl, generics use, variants)
@@ -65,6 +66,16 @@ def enums(tier):
     add("e_generic_where_trait", "#[repr(u8)] enum G<T, const N: usize> where T: Copy + Default, [u8; N]: Default {A=1,B(T,[u8;N]),C}",
         ["#[repr(u8)]"], "u8", [V("A", d="1"), V("B", "t_arr"), V("C")], gdecl="<T, const N: usize>", guse="<u8, 3>",
         where="where T: Copy + Default, [u8; N]: Default ")
+    add("e_raw_ident_variants", "#[repr(u8)] enum {r#if = 3, r#type, Plain(u8), r#fn{}, r#loop()}", ["#[repr(u8)]"], "u8",
+        [V("r#if", d="3"), V("r#type"), V("Plain", "tuple"), V("r#fn", "brace0"), V("r#loop", "tuple0")])
+    add("e_case_only_differences", "#[repr(u16)] enum {Kb = 1, KB, Data(u8), Http = 80, HTTP}", ["#[repr(u16)]"], "u16",
+        [V("Kb", d="1"), V("KB"), V("Data", "tuple"), V("Http", d="80"), V("HTTP")])
+    add("e_literal_then_const_then_implicit", "#[repr(i16)] enum {A = 1, B, C = NEG16, D, E = NEG16 * 2 + 1, F(), G, H = -3, I}", ["#[repr(i16)]"], "i16",
+        [V("A", d="1"), V("B"), V("C", d="NEG16"), V("D"), V("E", d="NEG16 * 2 + 1"), V("F", "tuple0"), V("G"), V("H", d="-3"), V("I")])
+    add("e_dataless_const_generic", "#[repr(u8)] enum G<const N: usize> {A, B = 7, C}", ["#[repr(u8)]"], "u8",
+        [V("A"), V("B", d="7"), V("C")], gdecl="<const N: usize>", guse="<3>")
+    add("e_explicit_on_empty_tuple_brace", "#[repr(i8)] enum {Tuple() = -5, Next, Brace{} = 40, Last, Data(u8)}", ["#[repr(i8)]"], "i8",
+        [V("Tuple", "tuple0", "-5"), V("Next"), V("Brace", "brace0", "40"), V("Last"), V("Data", "tuple")])
     add("e_first_has_fields", "#[repr(i8)] enum {A(u8),B,C=-3,D{},E}", ["#[repr(i8)]"], "i8",
         [V("A", "tuple"), V("B"), V("C", d="-3"), V("D", "brace0"), V("E")])
     add("e_generic_lt_const", "#[repr(u8)] enum G<'a, const N: usize> {A=1,B(&'a [u8;N]),C}", ["#[repr(u8)]"], "u8",
